@@ -348,6 +348,9 @@ def run_task(task):
                 d = got[0]['data']
                 if got[0]['code'] != tuple(b'check-ai'):
                     viol(I, True, 'wrong-code', 'code %r' % (got[0]['code'],))
+                if tuple(got[0]['end']) != (b['line'], b['col'] + 17):
+                    viol(I, True, 'range-not-the-start-tag', 'block %s: diagnostic range ends at %s, the start tag at %s' % (
+                        b['name'], got[0]['end'], (b['line'], b['col'] + 17)))
                 msg = ai_message(prog, I, d)
                 if msg is None:
                     viol(I, True, 'diagnostic-lacks-reply', 'no ai_message in the diagnostic data')
@@ -484,6 +487,7 @@ def run_real(binary, w):
     reqs = ep.requests
     port = ep.port
     d = scratch_dir('c19')
+    written = {}
     try:
         git_init(d)
         # real files: python comments around the content, attributes written as tag attributes
@@ -504,6 +508,7 @@ def run_real(binary, w):
                 lines.append(b['raw'])
                 lines.append('<!-- </block> -->')
             open(os.path.join(d, real_name(fname)), 'wb').write(('\n'.join(lines) + '\n').encode('latin1'))
+            written[real_name(fname)] = ('\n'.join(lines) + '\n').encode('latin1')
         env = {'BLOCKWATCH_AI_API_URL': 'http://127.0.0.1:%d/v1' % port}
         if w['env'].get('BLOCKWATCH_AI_API_KEY') is not None:
             env['BLOCKWATCH_AI_API_KEY'] = w['env']['BLOCKWATCH_AI_API_KEY']
@@ -521,7 +526,7 @@ def run_real(binary, w):
             diags = json.loads(r['stderr'])
         except ValueError:
             pass
-    return dict(code=r['code'], diags=diags, stderr=r['stderr'][-300:], requests=reqs)
+    return dict(code=r['code'], diags=diags, stderr=r['stderr'][-300:], requests=reqs, written=written)
 
 
 def real_name(fname):
@@ -588,7 +593,8 @@ def check_real(binary, w):
         ok = obs['code'] != 0 and obs['diags'] is None
     else:
         got = {k: len(v) for k, v in (obs['diags'] or {}).items()}
-        ok = got == exp['diags'] and len(obs['requests']) == exp['requests'] and obs['code'] == (1 if exp['diags'] else 0)
+        ok = got == exp['diags'] and len(obs['requests']) == exp['requests'] and obs['code'] == (1 if exp['diags'] else 0) \
+            and diag_ranges_on_tags(obs.get('written') or {}, obs['diags'])
         if ok:
             want_model = w['env'].get('BLOCKWATCH_AI_MODEL') or DEFAULT_MODEL.decode()
             want_auth = 'Bearer ' + (w['env'].get('BLOCKWATCH_AI_API_KEY') or '')
